@@ -122,3 +122,35 @@ func retainCheck(w *mon.W, id, key, s, what string) {
 	}
 	retainRing[key] = ring
 }
+
+type retainedBytes struct {
+	orig []byte
+	copy string
+	what string
+}
+
+var retainBytesRing = map[string][]retainedBytes{}
+
+// retainBytesCheck is retainCheck for byte slices poly returned (the slice itself is kept, not a copy).
+func retainBytesCheck(w *mon.W, id, key string, b []byte, what string) {
+	retainMu.Lock()
+	defer retainMu.Unlock()
+	ring := retainBytesRing[key]
+	for i, r := range ring {
+		if string(r.orig) != r.copy {
+			w.Violation(id, fmt.Sprintf("the bytes returned by an earlier call (%s) changed after later calls: they read %q and now read %q", r.what, clip(r.copy, 150), clip(string(r.orig), 150)), nil)
+			ring[i].copy = string(r.orig)
+		}
+	}
+	if len(ring) > 0 {
+		w.Add("earlier_results_reinspected", int64(len(ring)))
+	}
+	if len(b) == 0 || len(b) > 1<<20 {
+		return
+	}
+	ring = append(ring, retainedBytes{orig: b, copy: string(b), what: clip(what, 160)})
+	if len(ring) > 4 {
+		ring = ring[1:]
+	}
+	retainBytesRing[key] = ring
+}
